@@ -697,6 +697,128 @@ def edge_starts(g: CFG, test: int, value: bool) -> set[int]:
     return out
 
 
+# ------------------------------------------------------------------------------ rule f: the read side of a store class, by role
+# The read entry points are the PUBLIC names of the Store API (they cannot be renamed without breaking every caller); the private
+# helpers a read relies on are whatever methods of the class those entry points reach through `self.<method>`, under any name.
+STORE_READ_API = ("triples", "triples_choices", "__len__", "contexts", "namespaces", "prefix", "namespace", "query")
+
+
+def _method_ref(cls: ast.ClassDef, e: ast.AST, defined: set[str]) -> Optional[str]:
+    """`self.<m>` naming a method the class defines (a name-mangled reference spelled out, `self._<Class>__m`, included)"""
+    a = self_attr(e)
+    if a is None:
+        return None
+    if a in defined:
+        return a
+    pre = "_" + cls.name.lstrip("_")
+    if a.startswith(pre + "__") and a[len(pre):] in defined:
+        return a[len(pre):]
+    return None
+
+
+def store_read_methods(cls: ast.ClassDef) -> dict[str, list[ast.FunctionDef]]:
+    """the read entry points the class defines + every method of the class reachable from them through a `self.<method>`
+    reference (called or passed on), transitively; every def of a name (overload stubs, getter/setter) is kept"""
+    by_name: dict[str, list[ast.FunctionDef]] = {}
+    for f in class_functions(cls):
+        by_name.setdefault(f.name, []).append(f)
+    defined = set(by_name)
+    todo = [n for n in STORE_READ_API if n in defined]
+    seen: dict[str, list[ast.FunctionDef]] = {}
+    while todo:
+        n = todo.pop()
+        if n in seen:
+            continue
+        seen[n] = by_name[n]
+        for f in by_name[n]:
+            for x in own_nodes(f, include_nested=True):
+                m = _method_ref(cls, x, defined)
+                if m is not None and m not in seen:
+                    todo.append(m)
+    return seen
+
+
+def lookup_only_tables(mod: Module, cls: ast.ClassDef) -> set[str]:
+    """the attributes self.<A> that __init__ binds to an empty dict and that the class uses for point access only: `self.A[k]`
+    (read or store), `k in self.A`, `self.A.get(k[, d])`.  Such a table is never enumerated, measured, handed out, rebound or
+    deleted from, so an entry stored under k is observable through a lookup of that very k and through nothing else"""
+    bound: set[str] = set()
+    bad: set[str] = set()
+    for f in class_functions(cls):
+        for x in own_nodes(f, include_nested=True):
+            a = self_attr(x)
+            if a is None:
+                continue
+            par = mod.parent.get(id(x))
+            if isinstance(par, (ast.Assign, ast.AnnAssign)) and x in (par.targets if isinstance(par, ast.Assign) else [par.target]):
+                v = par.value
+                empty = (isinstance(v, ast.Dict) and not v.keys) or (isinstance(v, ast.Call) and isinstance(v.func, ast.Name) and v.func.id == "dict" and not v.args and not v.keywords)
+                if f.name == "__init__" and empty and a not in bound:
+                    bound.add(a)
+                else:
+                    bad.add(a)
+                continue
+            if isinstance(par, ast.Subscript) and par.value is x and isinstance(par.ctx, (ast.Load, ast.Store)):
+                continue
+            if isinstance(par, ast.Compare) and x in par.comparators and all(isinstance(o, (ast.In, ast.NotIn)) for o in par.ops) and len(par.ops) == 1:
+                continue
+            if isinstance(par, ast.Attribute) and par.attr == "get" and par.value is x:
+                call = mod.parent.get(id(par))
+                if isinstance(call, ast.Call) and call.func is par and 1 <= len(call.args) <= 2 and not call.keywords:
+                    continue
+            bad.add(a)
+    return bound - bad
+
+
+def _string_of(e: ast.AST, v: str) -> bool:
+    """a string built from the name v alone (v, attributes of v): f-string, "<literal>".format(..), "<literal>" % .., str(..)"""
+    if not (names_in(e) - {"str", "repr"} == {v}):
+        return False
+    if isinstance(e, ast.JoinedStr):
+        return True
+    if isinstance(e, ast.BinOp) and isinstance(e.op, ast.Mod) and isinstance(e.left, ast.Constant) and isinstance(e.left.value, str):
+        return True
+    if isinstance(e, ast.Call) and isinstance(e.func, ast.Attribute) and e.func.attr == "format" and isinstance(e.func.value, ast.Constant) and isinstance(e.func.value.value, str):
+        return not any(isinstance(a, ast.Starred) for a in e.args) and all(k.arg for k in e.keywords)
+    if isinstance(e, ast.Call) and isinstance(e.func, ast.Name) and e.func.id in ("str", "repr") and len(e.args) == 1 and not e.keywords:
+        return True
+    return False
+
+
+def interning_store(mod: Module, fn: ast.AST, st: ast.AST, tables: set[str]) -> bool:
+    """st is `self.A[k] = v`: A a lookup-only table of the class, v a parameter of fn that fn never rebinds, k a local name
+    every binding of which in fn is a string built from v alone.  The key is then a function of the stored object: whatever
+    object sits under k has the identity k spells, so the write cannot change which key a lookup finds nor make it find an
+    object of another identity - it is an interning memo, not triple / graph-set state"""
+    if not isinstance(st, ast.Assign) or len(st.targets) != 1:
+        return False
+    t = st.targets[0]
+    if not (isinstance(t, ast.Subscript) and self_attr(t.value) in tables and isinstance(t.slice, ast.Name) and isinstance(st.value, ast.Name)):
+        return False
+    k, v = t.slice.id, st.value.id
+    args = getattr(fn, "args", None)
+    if args is None:
+        return False
+    params = {a.arg for a in args.posonlyargs + args.args + args.kwonlyargs}
+    if v not in params or k in params or k == v:
+        return False
+    n_bind = 0
+    for x in own_nodes(fn, include_nested=True):
+        if isinstance(x, ast.Name) and isinstance(x.ctx, (ast.Store, ast.Del)):
+            if x.id == v:
+                return False
+            if x.id == k:
+                par = mod.parent.get(id(x))
+                if not (isinstance(par, ast.Assign) and par.targets == [x] and _string_of(par.value, v)):
+                    return False
+                n_bind += 1
+        if isinstance(x, (ast.Global, ast.Nonlocal)) and (k in x.names or v in x.names):
+            return False
+        if isinstance(x, ast.arg) and x.arg in (k, v) and mod.parent.get(id(mod.parent.get(id(x)))) is not fn:
+            return False  # a nested def / lambda re-declares the name
+    return n_bind > 0
+
+
 # ------------------------------------------------------------------------------ the effect analysis, two notions made semantic
 # (rules a-g of checks/c13.py run on this subclass of vlib/effects.py; nothing below keys on a name of the package)
 #
